@@ -5,7 +5,7 @@ ops (strings in hex, `-` = empty):
   cfgnodns <0|1>                                                                Config.NoDNSLink
   dns <name>                                                                    DNSLink record (backend only)
   inline <name> | uninline <label>                                              InlineDNSLink / UninlineDNSLink
-  req <host> <path> <rawquery> <fragment> <https> <table entries…>
+  req <host> <x-forwarded-host> <path> <rawquery> <fragment> <https> <table entries…>
       d=<s>:<ver>,<codec>,<mh> | d=<s>:x        cid.Decode(s)
       e=<b36>,<codec>,<mh>:<s>                   NewCidV1(codec, mh).StringOfBase(b36 ? Base36 : Base32)
       p=<s>:<cid string> | p=<s>:x               peer.Decode(s) → peer.ToCid(..).String()
@@ -146,12 +146,12 @@ def step (cfg : Config) (line : String) : Config × String :=
     match unhex s with
     | some s => (cfg, hex (uninlineDNSLink s))
     | none => (cfg, "bad-op")
-  | "req" :: host :: path :: q :: frag :: https :: tabs =>
-    match unhex host, unhex path, unhex q, unhex frag, parseTables tabs {} with
-    | some host, some path, some q, some frag, some t =>
-      let r : Req := { host := host, path := path, rawQuery := q, fragment := frag, https := https == "1" }
-      (cfg, showOut (handle true t.env cfg r))
-    | _, _, _, _, _ => (cfg, "bad-op")
+  | "req" :: host :: xfh :: path :: q :: frag :: https :: tabs =>
+    match unhex host, unhex xfh, unhex path, unhex q, unhex frag, parseTables tabs {} with
+    | some host, some xfh, some path, some q, some frag, some t =>
+      let r : Req := { host := host, xfh := xfh, path := path, rawQuery := q, fragment := frag, https := https == "1" }
+      (cfg, showOut (handle true true t.env cfg r))
+    | _, _, _, _, _, _ => (cfg, "bad-op")
   | _ => (cfg, "bad-op")
 
 partial def loop (h : IO.FS.Stream) (out : IO.FS.Stream) (c : Config) : IO Unit := do
